@@ -687,7 +687,7 @@ type AbacoSource struct {
 	readPeriod   time.Duration
 	buffersChan  chan AbacoBuffersType
 	eTrigPackets []*packets.Packet // Unprocessed packets with external trigger info
-	frameNumLock sync.Mutex        // guards nextFrameNum: written by block assembly, read by the packet reader
+	frameNumLock sync.Mutex        // guards nextFrameNum, eTrigPackets and the groups' frame timing: shared by block assembly and the packet reader
 
 	unwrapOpts AbacoUnwrapOptions
 	AnySource
@@ -815,10 +815,11 @@ func (as *AbacoSource) Configure(config *AbacoSourceConfig) (err error) {
 
 // distributePackets sorts a slice of Abaco packets into the data queues according to the GroupIndex.
 func (as *AbacoSource) distributePackets(allpackets []*packets.Packet, now time.Time) {
-	// The frame counter is advanced by the block-assembly goroutine (distributeData).
+	// The block-assembly goroutine (distributeData) advances the frame counter, and drains
+	// the external-trigger queue using the groups' frame-timing data.
 	as.frameNumLock.Lock()
+	defer as.frameNumLock.Unlock()
 	nextFrameNum := as.nextFrameNum
-	as.frameNumLock.Unlock()
 	for _, p := range allpackets {
 		if p.IsExternalTrigger() {
 			as.eTrigPackets = append(as.eTrigPackets, p)
@@ -1162,6 +1163,8 @@ func (as *AbacoSource) getNextBlock() chan *dataBlock {
 }
 
 func (as *AbacoSource) extractExternalTriggers() []int64 {
+	as.frameNumLock.Lock()
+	defer as.frameNumLock.Unlock()
 	externalTriggers := make([]int64, 0)
 	for _, p := range as.eTrigPackets {
 		// These packets have form (u32, u32, u64) repeating, but we don't care about the first 2.
